@@ -30,7 +30,7 @@ from checks.C01 import lab, _cell_term, _box, _steady
 PID = "C08"
 TOL = Fraction(1, 10 ** 8)
 STDS = {"nk3": dict(std_ex=1.0, std_ep=0.5), "ar2m": dict(std_ey=1.0, std_ez=0.5, std_wy=0.3),
-        "pc_const": dict(std_ep=0.7, std_ey=1.0, std_wp=0.4)}
+        "pc_const": dict(std_ep=0.7, std_ey=1.0, std_wp=0.4), "ur_drift": dict(std_el=1.0, std_eg=0.5)}
 
 
 def _model(ir, name):
@@ -78,6 +78,8 @@ def _masks(ny, nper, tier):
                 pick.append(m)
             if all(m[(r, t)] == (t == nper - 1 and r == 0) for r, t in cells):
                 pick.append(m)
+            if all(m[(r, t)] == (t != nper - 1) for r, t in cells):
+                pick.append(m)          # trailing period without observations
         seen, out = set(), []
         for m in pick:
             k = tuple(sorted(m.items()))
@@ -235,7 +237,7 @@ def check_structure(run, ir, zm, m, nper, mask, deviation):
             claims3.append((f"resim:{n}@{k}", a, b))
     _decide(run, key3, f"smooth:resimulate:{zm.name}", dict(case, kind="resimulate"), claims3, syms3, [path_p, path_s])
     # ---------------- (iv): deviation-mode filter on data minus steady = level-mode results minus steady
-    if deviation:
+    if deviation or "unit_root" in zm.tags:
         return
     key4 = f"deviation_vs_level:{base_key}"
     override_d = {}
@@ -270,20 +272,21 @@ def main(run):
         "fords.covariances.symmetrize", "dataslates.Dataslate.{from_databox_for_slatable,nan_from_template,to_databox} on object data",
         "fords.simulators.simulate_flat (re-simulation leg)", "reached through Simultaneous.kalman_filter / Simultaneous.simulate",
     ]
-    run.bounds["structures"] = ("zoo models with a measurement block (nk3, ar2m; pc_const in thorough), stationary; deviation in {True,False}; T=3 periods; "
+    run.bounds["structures"] = ("zoo models with a measurement block (nk3, ar2m, ur_drift with a unit root under fixed_unknown; pc_const in thorough); deviation in {True,False}; T=3 periods; "
                                 f"missing-data masks: {'5 representative masks' if run.tier == 'quick' else 'every non-empty mask'} per model; stds fixed")
     run.bounds["values"] = "every observed cell an independent real in [-1,1]; tolerance 1e-8 (gains computed by float LAPACK)"
     run.stubs += ["numpy.linalg.inv/det applied to concrete (data-independent) covariance matrices through ground-concretising shims",
                   "fords.kalmans.Dataslate wrapped: measurement rows symbolised, output slates object-dtype"]
     run.assumptions += ["cells are mathematical reals; float-born coefficients read exactly", "stds and parameters concrete",
                         "equations are asserted only where every operand is present in smooth_med"]
-    run.outside += ["unit-root models (diffuse initialisation)", "time-varying stds", "log measurement/transition variables", "spans longer than 3 periods"]
-    models = ("nk3", "ar2m") if run.tier == "quick" else ("nk3", "ar2m", "pc_const")
+    run.stubs.append("numpy.linalg.lstsq(A concrete, b symbolic) -> pinv(A) @ b (fixed_unknown initial condition of unit-root models)")
+    run.outside += ["deviation mode and approx_diffuse for unit-root models", "time-varying stds", "log measurement/transition variables", "spans longer than 3 periods"]
+    models = ("nk3", "ar2m", "ur_drift") if run.tier == "quick" else ("nk3", "ar2m", "pc_const", "ur_drift")
     nper = 3
     for name in models:
         zm, m = _model(ir, name)
         for mask in _masks(len(zm.mvars), nper, run.tier):
-            for deviation in (False, True):
+            for deviation in ((False, True) if "unit_root" not in zm.tags else (False,)):
                 try:
                     check_structure(run, ir, zm, m, nper, mask, deviation)
                 except S.SymbolicBranchError as exc:
